@@ -469,7 +469,7 @@ pub fn run(ctx: &Ctx) -> Report {
         let stats = Mutex::new(Stats::default());
         for wd in &ws {
             let m = model(wd, &stats);
-            let out = poolexplore::run_world(ctx, &mut r, &wd.b, &m, ctx.pick(3, 5), share);
+            let out = poolexplore::run_world(ctx, &mut r, &wd.b, &m, ctx.depth(3, 5), share);
             poolexplore::fold(&mut r, &wd.b.name, &out, &m.alphabet[..3]);
             if !r.violations.is_empty() {
                 break;
